@@ -12,15 +12,34 @@ MODELLED = ["cleanup", "unused", "projection", "duplication", "symmetry", "minma
 ALL = ["cleanup", "unused", "duplication", "symmetry", "minmax_chains", "sum_chains", "math", "inline", "projection"]
 
 
+def observe(pl):
+    """runs in a killable helper process (vlib/semprops.run_parallel): one call of the real optimize"""
+    from ngo.api import optimize
+    from ngo.utils.ast import Predicate
+    logging.disable(logging.CRITICAL)
+
+    def preds(l):
+        return [Predicate(n, a) for n, a in l]
+    fresh = try_parse(pl["text"])
+    flags = {k: (k in pl["enabled"]) for k in ALL}
+    try:
+        res = optimize(fresh, preds(pl["ip"]), preds(pl["op"]), **flags)
+        return {"obs": "(Ok " + ser.prog(res) + ")", "out": [str(s) for s in res]}
+    except ser.Unsupported:
+        return None
+    except Exception as e:  # pylint: disable=broad-except
+        return {"obs": ser.result_raise(e), "out": type(e).__name__}
+
+
 class ApiOptimize:
     name = "api_optimize"
     imports = ["Model.Api", "Model.Corr"]
-    source = "ngo.api.optimize for subsets of the seven traits whose passes are composed in Model/Api.v (sum_chains and math off)"
+    source = "ngo.api.optimize(prg, input_predicates, output_predicates, **flags) for subsets of the modelled traits"
 
     def cases(self, inputs, rng):
-        from ngo.api import optimize
         from ngo.utils.ast import Predicate
         from ngo.utils.globals import auto_detect_input, auto_detect_output
+        from . import semprops
         logging.disable(logging.CRITICAL)
         subsets = [list(c) for r in range(0, len(MODELLED) + 1) for c in itertools.combinations(MODELLED, r)]
         progs = []
@@ -30,12 +49,12 @@ class ApiOptimize:
                 continue
             progs.append((inp["text"], prg))
         rng.shuffle(progs)
+        pls = []
         for text, prg in progs[:450]:
             try:
                 t = ser.prog(prg)
             except ser.Unsupported:
                 continue
-            allp = sorted({(p.name, p.arity) for s in prg for p in []} | set())
             ip = auto_detect_input(prg)
             op = auto_detect_output(prg)
             if rng.random() < 0.5:
@@ -43,27 +62,20 @@ class ApiOptimize:
                 heads = sorted({h for s in prg for h in positive_head_atoms(s)})
                 op = [Predicate(n, a) for n, a in heads if rng.random() < 0.5]
             for en in rng.sample(subsets, 3):
-                fresh = try_parse(text)
-                flags = {k: (k in en) for k in ALL}
-                try:
-                    with case_limit(20):
-                        res = optimize(fresh, list(ip), list(op), **flags)
-                    obs = "(Ok " + ser.prog(res) + ")"
-                    out = [str(s) for s in res]
-                except CaseTimeout:
-                    SKIPPED["timeout"] = SKIPPED.get("timeout", 0) + 1   # junk input, pipeline does not settle
-                    continue
-                except ser.Unsupported:
-                    continue
-                except Exception as e:  # pylint: disable=broad-except
-                    obs = ser.result_raise(e)
-                    out = type(e).__name__
-                ins = ser.lst([ser.pred(p) for p in ip])
-                outs = ser.lst([ser.pred(p) for p in op])
-                yield Case(f"chk_prog (Api.optimize {ser.strlist(en)} {ins} {outs} {t}) {obs}",
-                           {"fn": "ngo.api.optimize", "program": text, "enabled": en, "inputs": [str(p) for p in ip],
-                            "outputs": [str(p) for p in op], "observed": out},
-                           nontrivial=bool(en))
+                pls.append({"check": "api_case", "text": text, "t": t, "enabled": en,
+                            "ip": [(p.name, p.arity) for p in ip], "op": [(p.name, p.arity) for p in op],
+                            "ins": ser.lst([ser.pred(p) for p in ip]), "outs": ser.lst([ser.pred(p) for p in op])})
+        # junk inputs can send the real pipeline into endless rounds or into runaway C code (unpool): every call runs
+        # in a helper process that is killed after 25 s; such a case is skipped, not compared
+        for pl, val, err in semprops.run_parallel(pls, procs=4, task_timeout=25):
+            if err is not None or val is None:
+                SKIPPED[err or "unsupported"] = SKIPPED.get(err or "unsupported", 0) + 1
+                continue
+            yield Case(f"chk_prog (Api.optimize {ser.strlist(pl['enabled'])} {pl['ins']} {pl['outs']} {pl['t']}) {val['obs']}",
+                       {"fn": "ngo.api.optimize", "program": pl["text"], "enabled": pl["enabled"],
+                        "inputs": [f"{n}/{a}" for n, a in pl["ip"]], "outputs": [f"{n}/{a}" for n, a in pl["op"]],
+                        "observed": val["out"]},
+                       nontrivial=bool(pl["enabled"]))
 
 
 FAMILIES = [ApiOptimize()]
